@@ -83,11 +83,12 @@ Definition check_ccase (c : ccase) : N :=
 
 Definition wf_ccase (c : ccase) : bool := true.
 
-Definition cmodel_view (c : ccase) (k : nat) :=
-  if (3000000 <? N.of_nat k)%N then
-    let j := (k - 3000000 - 1)%nat in
+(** [k] is the verdict minus one *)
+Definition cmodel_view_N (c : ccase) (k : N) :=
+  if (3000000 <=? k)%N then
+    let j := N.to_nat (k - 3000000)%N in
     let s := fold_left (fun s it => default s (kstep (cc_status c) (cc_pr c) s it)) (take j (cc_items c)) store0 in
     inl (map (fun '(u, tk) => (u, map_to_list tk)) (map_to_list (st_tasks s)), unsynced s, st_ws s, cc_items c !! j)
-  else if (2000000 <? N.of_nat k)%N then
-    inr (inl (take 12 (drop (k - 2000000 - 8) (cc_trace c))))
-  else inr (inr (st_model_view (map snd (cc_trace c)) (Nat.pred (k mod 1000000)))).
+  else if (2000000 <=? k)%N then
+    inr (inl (take 12 (drop (N.to_nat (k - 2000000 - 7)%N) (cc_trace c))))
+  else inr (inr (st_model_view (map snd (cc_trace c)) (N.to_nat (k mod 1000000)%N))).
